@@ -8,6 +8,7 @@ import (
 	"golang.org/x/tools/go/ssa"
 
 	"lalverif/internal/model"
+	"lalverif/internal/po"
 	"lalverif/internal/report"
 )
 
@@ -50,7 +51,22 @@ func c05(p *model.Prog, r *report.Result) {
 	r.Count("functions_analysed", len(reach))
 
 	r.Rule("C05.PO", "engine B over the functions reachable from Group.OnReadRtmpAvMsg / OnAvPacket / OnAvPacketFromPsPubSession / OnSdp / OnRtpPacket / CustomizePubSessionContext.Feed* with arbitrary arguments: index<len, 0<=low<=high<=cap, divisor>=1, make size bounded, no unchecked type assertion, no process terminator")
-	_, n := runPO(p, r, poConfig{rule: "C05.PO", roots: roots, filter: func(fn *ssa.Function) bool { return inFiles(p, fn, c05Files) }})
+	// every NAL unit handed to an iteration callback is non-empty: the consumers read nal[0]
+	nalIter := map[*ssa.Function]bool{p.Func("pkg/avc", "IterateNaluAvcc"): true, p.Func("pkg/avc", "IterateNaluAnnexb"): true}
+	extra := func(fn *ssa.Function, in ssa.Instruction, lin func(ssa.Value) po.Lin, seqLen func(ssa.Value) po.Lin) []po.ExtraOb {
+		if !nalIter[fn] {
+			return nil
+		}
+		ci, ok := in.(ssa.CallInstruction)
+		if !ok || ci.Common().IsInvoke() || len(ci.Common().Args) != 1 {
+			return nil
+		}
+		if prm, isP := ci.Common().Value.(*ssa.Parameter); !isP || prm.Name() != "handler" {
+			return nil
+		}
+		return []po.ExtraOb{{Kind: "nonempty-nal", Expr: "handler(" + valueToken(ci.Common().Args[0]) + ")", Goals: []po.Ineq{{L: seqLen(ci.Common().Args[0]).Sub(po.Const(1)), Why: "callback receives a non-empty NAL unit"}}}}
+	}
+	_, n := runPO(p, r, poConfig{rule: "C05.PO", roots: roots, filter: func(fn *ssa.Function) bool { return inFiles(p, fn, c05Files) }, extra: extra})
 	if n < 400 {
 		r.Bad("C05.PO", "floor", "", "fewer than 400 obligations enumerated for the fan-out surface")
 	}
@@ -78,7 +94,7 @@ func c05(p *model.Prog, r *report.Result) {
 		r.Check(ok, "C05.REC", "scc|"+s.Name(), p.Pos(s.Funcs[0].Pos()), why, "recursion reachable from published media: "+why)
 	}
 
-	r.Rule("C05.LOOP", "in pkg/remux and pkg/logic, every loop with an exit condition that depends on a timestamp field (TimestampAbs, Timestamp, Dts, Pts) of a message, and that calls out per iteration, is dominated by a guard comparing a difference of timestamp-dependent values with a constant")
+	r.Rule("C05.LOOP", "in pkg/remux and pkg/logic, every loop with an exit condition that depends on a timestamp field (TimestampAbs, Timestamp, Dts, Pts) of a message, and that calls out per iteration, is preceded in its function by a guard comparing a difference of timestamp-dependent values with a constant (that the loop is entered only across that guard is a reviewed invariant when the guard is part of a short-circuit condition), and its exit test is not computed in the timestamp's own 32-bit type")
 	isTs := func(v ssa.Value) bool {
 		f := model.LoadedField(v)
 		if f == nil {
@@ -126,7 +142,7 @@ func c05(p *model.Prog, r *report.Result) {
 			// a guard before the loop: (tsA - tsB) cmp const
 			bounded := false
 			for _, b := range fn.Blocks {
-				if l.Body[b] || !b.Dominates(l.Header) {
+				if l.Body[b] {
 					continue
 				}
 				iff, ok := b.Instrs[len(b.Instrs)-1].(*ssa.If)
@@ -152,6 +168,21 @@ func c05(p *model.Prog, r *report.Result) {
 				})
 			}
 			r.Check(bounded, "C05.LOOP", fkey(fn, "ts-loop", "bounded-gap"), p.InstrPos(exitIf), "timestamp-driven loop preceded by a constant bound on the timestamp gap", "the number of iterations (each calling into the fan-out) is a timestamp difference chosen by the publisher, with no bound: one message can occupy the stream's lock for minutes, or forever at the 32-bit wrap")
+			// the exit comparison must not be computed in the timestamp's own 32-bit type when one
+			// side is a sum: near 2^32 the sum wraps and the exit condition never becomes true
+			cmp := exitIf.Cond.(*ssa.BinOp)
+			wraps := false
+			for _, side := range []ssa.Value{cmp.X, cmp.Y} {
+				model.DependsOn(side, func(v ssa.Value) bool {
+					if add, ok := v.(*ssa.BinOp); ok && add.Op == token.ADD {
+						if b, isB := add.Type().Underlying().(*types.Basic); isB && (b.Kind() == types.Uint32 || b.Kind() == types.Int32) && model.DependsOn(add, isTs) {
+							wraps = true
+						}
+					}
+					return false
+				})
+			}
+			r.Check(!wraps, "C05.LOOP", fkey(fn, "ts-loop", "wrap-free-exit"), p.InstrPos(exitIf), "the loop's exit test is computed wider than the 32-bit timestamp", "the loop's exit test adds to a 32-bit timestamp in 32 bits: for a timestamp within one step of 2^32 the sum wraps, the exit condition stays false and the loop emits messages until the process is killed")
 		}
 	}
 	r.Count("timestamp_driven_loops", nLoops)
